@@ -99,6 +99,12 @@ def schedules(fam):
         out.append(SC(fam, "dropwhilepending", {"b": Mo(r1=R("c")), "c": Mo(z=P("1"))},
                       [opn("c1"), sub("c1", "b"), Q, sub("c1", "c"), conn("c1"), ev("b", "change", k="r1", val=P("0")), cache("b"), conn("c1"),
                        Q, ev("c", "custom"), Q]))
+    if fam == "gc":
+        # the per-resource limit of 256 direct subscriptions: the request beyond it fails and leaves the count unchanged
+        sb = dict(sub("c1", "t"), settle=True)
+        out.append(SC(fam, "limit256", {"t": Mo(z=P("1"))},
+                      [opn("c1")] + [sb] * 3 + [Q] + [sb] * 253 + [Q, sb, sb, Q, unsub("c1", "t", 257), Q, unsub("c1", "t", 255), Q,
+                                                                       sb, Q, unsub("c1", "t", 2), Q, get("c1", "t"), Q]))
     if fam == "cache":
         out.append(S(fam, "resub", [opn("c1"), sub("c1", "a"), Q, unsub("c1", "a"), Q, {"op": "time", "ms": 3000},
                                     sub("c1", "a"), Q, unsub("c1", "a"), Q, {"op": "time", "ms": 6000}, Q, sub("c1", "a"), Q]))
